@@ -97,8 +97,8 @@ func sameRes(a, b vmRes) bool {
 type dictObs struct {
 	Len    int  `json:"len"`
 	Truthy bool `json:"truthy"`
-	EqSelf bool `json:"eqself"`  // d == fresh dict with the same live pairs
-	EqMore bool `json:"eqmore"`  // d == fresh dict with the same pairs plus one extra key
+	EqSelf bool `json:"eqself"` // d == fresh dict with the same live pairs
+	EqMore bool `json:"eqmore"` // d == fresh dict with the same pairs plus one extra key
 	NKeys  int  `json:"nkeys"`
 }
 
